@@ -705,7 +705,16 @@ class Interp:
                         for q2, b in self.cond(R, q):
                             out.append((q2, pred_to_v(p_and(a, b) if op == '&&' else p_or(a, b))))
                     else:
-                        raise AnalysisBroken('side effect in the right operand of %s at %s' % (op, pos(n)))
+                        # the right operand has effects: it is evaluated only on the sub-path on which the left operand does not decide
+                        decided = a if op == '||' else p_not(a)
+                        qd = q.fork()
+                        qd.pc = p_and(qd.pc, decided)
+                        if qd.pc != F:
+                            out.append((qd, pred_to_v(T if op == '||' else F)))
+                        q.pc = p_and(q.pc, p_not(decided))
+                        if q.pc != F:
+                            for q2, b in self.cond(R, q):
+                                out.append((q2, pred_to_v(b)))
                 return out
             out = []
             tl = tinfo(L, self.idx)
@@ -803,10 +812,15 @@ class Interp:
                 d = _ucmp_const(a, op, b.c)
                 if d is not None:
                     return const(1, int(d))
-            if op in ('>', '>='):
-                a, b = b, a
-                op = {'>': '<', '>=': '<='}[op]
-            return app(('s' if signed else 'u') + {'<': 'lt', '<=': 'le'}[op], 1, a, b)
+            # canonical form: only the strict order is an atom; a <= b is not (b < a), so complementary tests meet
+            lt = 'slt' if signed else 'ult'
+            if op == '<':
+                return app(lt, 1, a, b)
+            if op == '>':
+                return app(lt, 1, b, a)
+            if op == '<=':
+                return pred_to_v(p_not(self.truth(app(lt, 1, b, a))))
+            return pred_to_v(p_not(self.truth(app(lt, 1, a, b))))
         if op in ('/', '%'):
             if b.isconst() and b.c and (b.c & (b.c - 1)) == 0 and not signed:
                 sh = b.c.bit_length() - 1
@@ -904,6 +918,10 @@ class Interp:
                     finally:
                         self.prefix = saved
                 return out
+            if name in ('eof', 'fail', 'good', 'bad', 'is_open') and o is not None and ('basic_ios' in qt(o) + dqt(o) or 'stream' in qt(o) + dqt(o)):
+                # state of a host stream: an unknown of the environment, distinct per query point (number of inputs consumed so far)
+                who = (o.get('referencedDecl') or {}).get('name') or o.get('name') or 'stream'
+                return [(p, var('%s(%s)@%d' % (name, who, p.nin), 1))]
             raise AnalysisBroken('unmodelled member call %s on %s at %s' % (name, qt(o) if o else '?', pos(n)))
         if kind == 'function':
             r = self.h.free_call(self, n, name, args, p)
